@@ -87,17 +87,11 @@ Section GenFacts.
   Notation gi := (gen_items is_print valid_ident).
 
   Lemma gen_value_seq vs : gv (VSeq vs) = t_obrack :: ge true vs ++ [t_cbrack].
-  Proof.
-    cbn [gen_value]. f_equal. f_equal. generalize true.
-    induction vs as [|x r IH]; intros b; [reflexivity|]. reflexivity.
-  Qed.
+  Proof. reflexivity. Qed.
 
   Lemma gen_value_map kvs :
     gv (VMap kvs) = t_obrace :: (match kvs with [] => [] | _ => [t_newline] end) ++ gi kvs ++ [t_cbrace].
-  Proof.
-    cbn [gen_value]. f_equal. f_equal. f_equal.
-    induction kvs as [|[k x] r IH]; [reflexivity|]. cbn [gen_items]. rewrite <- IH. reflexivity.
-  Qed.
+  Proof. reflexivity. Qed.
 
   (* ---- leaves -------------------------------------------------------------- *)
   Theorem gen_value_leaf :
@@ -110,7 +104,7 @@ Section GenFacts.
   Lemma gen_string_bytes s : tok_bytes (gs s) = 34 :: esc s ++ [34].
   Proof.
     unfold gen_string. destruct (esc s) as [|b tl]; [reflexivity|].
-    unfold tok_bytes. simpl. rewrite app_nil_r. reflexivity.
+    unfold tok_bytes. simpl. rewrite ?app_nil_r. reflexivity.
   Qed.
 
   Theorem gen_string_shape s :
@@ -130,7 +124,7 @@ Section GenFacts.
   (* ---- nesting --------------------------------------------------------------- *)
   Lemma bal_string s stk rest : bal stk (gs s ++ rest) = bal stk rest.
   Proof.
-    destruct (gen_string_shape s) as [[E _]|[E _]]; rewrite E; simpl; rewrite Z.eqb_refl; reflexivity.
+    destruct (gen_string_shape s) as [[E _]|[E _]]; rewrite E; simpl; rewrite ?Z.eqb_refl; reflexivity.
   Qed.
 
   Lemma bal_key k stk rest : bal stk (gk k ++ rest) = bal stk rest.
@@ -303,9 +297,9 @@ Section GenFacts.
     destruct ps as [|p ps].
     - simpl in Hread. inversion Hread. reflexivity.
     - inversion Hall as [|? ? [bs ->] Hall']; subst. destruct ps as [|p2 ps].
-      + simpl in Hread. destruct (unescape bs) as [u es| |]; try discriminate.
-        destruct es; [|discriminate]. inversion Hread. rewrite app_nil_r.
-        simpl. rewrite H0. reflexivity.
+      + simpl in Hread. destruct (unescape bs) as [u es| |] eqn:Eu; try discriminate.
+        destruct es; [|discriminate]. inversion Hread as [H0]. rewrite app_nil_r in H0.
+        simpl. rewrite Eu, H0. rewrite ?app_nil_r. reflexivity.
       + inversion Hall' as [|? ? [bs2 ->] _]; subst. destruct ps; reflexivity.
   Qed.
 
@@ -315,11 +309,11 @@ Section GenFacts.
   Proof.
     intros Hv Hp. unfold lit_count, lex_quoted.
     assert (E : lexq MG (esc l ++ [34]) = (flush_lit (esc l), LClosed [])).
-    { change MG with (mlit is_print []).
+    { change MG with (mlit []).
       assert (G : forall l cur, Forall valid_scalar l -> Forall plain l ->
-                  lexq (mlit is_print cur) (esc l ++ [34]) = (flush_lit (cur ++ esc l), LClosed [])).
+                  lexq (mlit cur) (esc l ++ [34]) = (flush_lit (cur ++ esc l), LClosed [])).
       { clear. intros l. induction l as [|r l IH]; intros cur Hv Hp.
-        - simpl. rewrite app_nil_r. apply lexq_close.
+        - cbn [escape app]. rewrite app_nil_r. apply lexq_close.
         - inversion Hv; inversion Hp; subst. cbn [escape]. rewrite <- app_assoc.
           rewrite lexq_rune_plain by assumption. rewrite IH by assumption.
           rewrite <- app_assoc. reflexivity. }
@@ -376,3 +370,14 @@ Section GenFacts.
     rewrite label_fresh_roundtrip by assumption. rewrite IH. reflexivity.
   Qed.
 End GenFacts.
+
+(* the three labels containing a template character that still lex to one
+   literal token: "$", "${", "${~" (same for '%') *)
+Theorem label_relex_special is_print c :
+  is_print 123 = true -> is_print 126 = true -> c = 36 \/ c = 37 ->
+  lit_count is_print [c] = 1%nat /\ lit_count is_print [c; 123] = 1%nat /\
+  lit_count is_print [c; 123; 126] = 1%nat.
+Proof.
+  intros H1 H2 [-> | ->]; unfold lit_count; cbn [escape]; unfold escape_rune; simpl;
+    rewrite ?H1, ?H2; repeat split; reflexivity.
+Qed.
